@@ -25,6 +25,7 @@ import (
 
 	"verif/vrt"
 	"verif/worlds/tcpw"
+	_ "verif/worlds/track" // C12 builds: every world runs under the pool lifecycle tracker
 )
 
 type Out struct {
@@ -235,7 +236,14 @@ func (w *World) InjectRaw(b []byte) error {
 		w.DSt.In = append(w.DSt.In, append([]byte{}, b...))
 		return nil
 	}
-	return w.CC.Process(nil, b)
+	// as a socket read loop does: the datagram sits in a receive buffer that is reused for the next read, so
+	// whatever the connection keeps of it after Process returns must be its own copy
+	buf := append(make([]byte, 0, len(b)+8), b...)
+	err := w.CC.Process(nil, buf)
+	for i := range buf {
+		buf[i] = 0xEC
+	}
+	return err
 }
 
 // dtlsConn gives the stream a HandshakeContext (as *dtls.Conn has).
